@@ -246,3 +246,29 @@ Qed.
 (* the suffix is stripped on closing a ring only for nucleic acids (guards of the assignment) *)
 Lemma gen_circular_guard : circular_strip_guard = ["ter_char == '2'"; "DNA or RNA"]%string.
 Proof. reflexivity. Qed.
+
+(* ---- comments that name the protein keyword together with a nucleic acid ---- *)
+Lemma one_letter_mix_single a c : one_letter_mix (kinds_of a) c = one_letter a c.
+Proof. destruct a; unfold one_letter_mix; cbn [kinds_of k_dna k_rna k_aa]; destruct (one_letter _ c); reflexivity. Qed.
+Lemma translate_mix_single a letters : translate_mix (kinds_of a) letters = translate a letters.
+Proof. induction letters as [|c r IH]; cbn [translate_mix translate]; [reflexivity|]. rewrite one_letter_mix_single, IH. reflexivity. Qed.
+Lemma parse_plain_mix_single a lines : parse_plain_mix (kinds_of a) lines = parse_plain a lines.
+Proof. unfold parse_plain_mix, parse_plain. rewrite translate_mix_single. destruct a; reflexivity. Qed.
+(* the tables are consulted in the order DNA, RNA, protein, letter by letter, whatever was read before *)
+Lemma one_letter_mix_precedence k c x :
+  one_letter_mix k c = Some x <->
+  (k_dna k = true /\ one_letter DNA c = Some x) \/
+  ((k_dna k = false \/ one_letter DNA c = None) /\ k_rna k = true /\ one_letter RNA c = Some x) \/
+  ((k_dna k = false \/ one_letter DNA c = None) /\ (k_rna k = false \/ one_letter RNA c = None) /\ k_aa k = true /\ one_letter AA c = Some x).
+Proof.
+  unfold one_letter_mix. destruct (k_dna k), (k_rna k), (k_aa k);
+    destruct (one_letter DNA c) as [d|]; destruct (one_letter RNA c) as [r|]; destruct (one_letter AA c) as [p|];
+    split; intros H;
+    repeat match goal with
+           | H : _ \/ _ |- _ => destruct H
+           | H : _ /\ _ |- _ => destruct H
+           end; try discriminate; try congruence; auto 10.
+Qed.
+Example ex_mixed_header :
+  parse_plain_mix {| k_dna := true; k_rna := false; k_aa := true |} ["MAG"%string; "T"%string] = Some (linear ["MET5"; "DA"; "DG"; "DT3"]%string).
+Proof. vm_compute. reflexivity. Qed.
